@@ -127,6 +127,8 @@ def s3(d: str, lazy: bool = False) -> str:
         {"id": "h1", "cell": S["N1"], "soc": 0.5, "schedule_id": "early", "home_base_id": "hb1"},
         {"id": "h2", "cell": S["N2"], "soc": 0.5, "schedule_id": "late", "home_base_id": "hb3"},  # (a home base is private to ONE driver)
         {"id": "h3", "cell": S["N3"], "soc": 0.5, "schedule_id": "early", "home_base_id": "hb2"},
+        # a fourth driver who names the same home base as h1 (the private memberships of a shared base are written one over the other)
+        {"id": "h4", "cell": S["N2"], "soc": 0.5, "schedule_id": "late", "home_base_id": "hb1"},
         # autonomous vehicles at equal distance from the one-stall base b1: time out in the same step
         {"id": "a1", "cell": S["X1"], "soc": 0.5},
         {"id": "a2", "cell": S["X2"], "soc": 0.5},
@@ -216,7 +218,24 @@ def s4(d: str, lazy: bool = False) -> str:
 INIT_FUNCTIONS = {"S4": grid_init_functions}
 
 
+def s0g(d: str, lazy: bool = False) -> str:
+    """a PRIMER scenario for the in-process repetition pass: the station ids of the other scenarios, but every one of them a gas
+    pump only, and low battery vehicles of the same powertrain types that search for a plug (and find none): whatever the library
+    remembers per (powertrain, station id) in this run must not reach the runs that follow in the same interpreter"""
+    S = sites()
+    write_global_config(d, log_stats=True, lazy=lazy)
+    vehicles = [{"id": "v1", "cell": S["N1"], "soc": 0.02, "mech": "quiet"}, {"id": "v9", "cell": S["N2"], "soc": 0.02, "mech": "thirsty"},
+                {"id": "h1", "cell": S["N3"], "soc": 0.02, "mech": "thirsty"}]
+    stations = [(sid, S[c], "GAS_PUMP", 1, True) for sid, c in (("s0", "N1"), ("s1", "X1"), ("sq", "A"), ("sa", "M1"), ("sb", "M2"), ("bs1", "X2"), ("hbs1", "X3"))]
+    return write_scenario(
+        d, "s0g", start=0, end=600, step=60, cancel=300, vehicles=vehicles, requests=[("r0", S["A"], S["M1"], 100, 1)],
+        bases=[("b0", S["M1"], None, 1)], stations=stations, dispatcher=dict(LOW_DISPATCH),
+        mechatronics_file=os.path.join(os.path.dirname(os.path.dirname(os.path.abspath(__file__))), "worlds", "mechatronics.yaml"),
+    )
+
+
 BUILDERS = {
+    "S0g": (s0g, 8),
     "S1": (s1, 25),
     "S2": (s2, 30),
     "S3": (s3, 35),
